@@ -478,6 +478,9 @@ fn pretty_print(output: TokenStream) -> String {
 }
 
 fn pretty_print_rustfmt(tokens: TokenStream) -> String {
+    // Route the formatter process through the verification seam.
+    #[cfg(wgsl_to_wgpu_verif)]
+    use crate::verif_hooks::process::{Command, Stdio};
     verif_point!("rustfmt:start");
     let value = tokens.to_string();
     // TODO: Return errors?
